@@ -407,7 +407,104 @@ func checkExecution(sc scenario, ix *index.Hnsw, pre map[int]int, recs []rec) *e
 	if k, d := idxlib.CheckSearch(ix, ref, sp, idxlib.Queries, []uint{1, 5}); k != "" {
 		return &explore.Violation{Key: "quiescent-" + k + ":" + idxlib.Cause(ix.VerifDump()) + overlap(recs), Desc: d + " after " + describe(recs)}
 	}
+	// "the same search guarantees as after a sequential history": for every query the quiescent index must find at least as
+	// many items as it does after the WORST sequential order of the same operations (an order that gives every operation
+	// the outcome it had here). An item that is stored but can never be found again shows here and nowhere else.
+	if min := sequentialMinima(sc, recs); min != nil {
+		for qi, q := range idxlib.Queries {
+			res, _ := ix.Search(context.Background(), q, 5)
+			if len(res) < min[qi] {
+				return &explore.Violation{Key: "quiescent-search-finds-less-than-after-any-sequential-order" + insertOverlapsRemove(recs), Desc: fmt.Sprintf("Search(%v,5) finds %d of the %d stored items; after every sequential order of the same operations it finds at least %d: %s", q, len(res), len(ref), min[qi], describe(recs))}
+			}
+		}
+	}
 	return nil
+}
+
+// insertOverlapsRemove classifies executions in which a successful insert overlapped a successful remove of another id in time.
+func insertOverlapsRemove(recs []rec) string {
+	cls := ""
+	for _, a := range recs {
+		for _, b := range recs {
+			if a.op.Kind == "ins" && b.op.Kind == "rem" && a.err == nil && b.err == nil && a.call <= b.ret && b.call <= a.ret {
+				if a.op.ID == b.op.ID {
+					return ":an-insert-overlaps-the-remove-of-the-same-id"
+				}
+				cls = ":an-insert-overlaps-a-remove-of-another-id"
+			}
+		}
+	}
+	return cls
+}
+
+// sequentialMinima replays the writes of an execution in every interleaving of the threads' program orders on a fresh
+// index, keeps the orders in which every write has the outcome it had in the execution, and returns per query the
+// smallest number of items a k=5 search finds afterwards (nil if no order reproduces the outcomes).
+func sequentialMinima(sc scenario, recs []rec) []int {
+	perThread := map[int][]rec{}
+	var threads []int
+	for _, r := range recs {
+		if r.op.Kind != "ins" && r.op.Kind != "rem" {
+			continue
+		}
+		if _, ok := perThread[r.thread]; !ok {
+			threads = append(threads, r.thread)
+		}
+		perThread[r.thread] = append(perThread[r.thread], r)
+	}
+	sort.Ints(threads)
+	total := 0
+	for _, t := range threads {
+		sort.Slice(perThread[t], func(i, j int) bool { return perThread[t][i].call < perThread[t][j].call })
+		total += len(perThread[t])
+	}
+	if total == 0 || total > 5 {
+		return nil
+	}
+	var min []int
+	pos := map[int]int{}
+	var order []rec
+	var rec2 func()
+	rec2 = func() {
+		if len(order) == total {
+			ix, _ := newIndex(sc)
+			for _, r := range order {
+				var err error
+				if r.op.Kind == "ins" {
+					err = ix.Insert(idxlib.IDs[r.op.ID], append([]float32{}, vecOf(r.op.Vec)...), index.Metadata{"v": fmt.Sprint(r.op.Vec)}, r.op.Level)
+				} else {
+					err = ix.Remove(idxlib.IDs[r.op.ID])
+				}
+				if (err == nil) != (r.err == nil) {
+					return // this order does not explain the outcomes
+				}
+			}
+			for qi, q := range idxlib.Queries {
+				res, _ := ix.Search(context.Background(), q, 5)
+				if min == nil {
+					min = make([]int, len(idxlib.Queries))
+					for i := range min {
+						min[i] = 1 << 30
+					}
+				}
+				if len(res) < min[qi] {
+					min[qi] = len(res)
+				}
+			}
+			return
+		}
+		for _, t := range threads {
+			if pos[t] < len(perThread[t]) {
+				order = append(order, perThread[t][pos[t]])
+				pos[t]++
+				rec2()
+				pos[t]--
+				order = order[:len(order)-1]
+			}
+		}
+	}
+	rec2()
+	return min
 }
 
 // overlap classifies executions in which two successful removes overlapped in time (the
